@@ -1377,6 +1377,23 @@ Plan generate(const std::string& mode, uint64_t seed, uint64_t run) {
       size_t at = closers[r.below(closers.size())];
       b[at] = b[at] == ']' ? '}' : ']';
       why = "mismatched closing bracket";
+    } else if (sel < 82) {
+      // structurally wrong token sequences (each is invalid in the documented dialect too)
+      static const char* bad[] = {"[1,]", "[,1]", "{,}", "{\"a\":}", "{\"a\"}", "{:1}", "[}", "{]", "]", "}", "[1,,2]",
+                                  "{\"a\":1,}", "{\"a\":1 \"b\":2}", "[\"a\":1]", "{\"a\":1,,\"b\":2}", "[1]]"  /* accepted: trailing bytes */,
+                                  "[[1,2],]", "{\"a\":[1,2,]}", "[{\"a\":1,}]", ":", ",", "[\"a\",:]"};
+      size_t pick = size_t(r.below(22));
+      b = bad[pick];
+      if (pick == 15) {
+        // "[1]]" is a complete value followed by arbitrary bytes: accepted by the dialect
+        op.set("expect", "Ok").set("value", "[u1]");
+        why = "complete value followed by other bytes";
+      } else {
+        why = "structurally wrong token sequence";
+        if (r.chance(1, 2) && b[0] != ']' && b[0] != '}' && b[0] != ':' && b[0] != ',') {
+          b = "[0," + b + "]";  // the same, nested
+        }
+      }
     } else if (sel < 88) {
       // keyword with a wrong letter
       static const char* bad[] = {"[trxe]", "[fals]", "[nul]", "{\"a\":tru }", "[nulL]", "[True]", "[1,flase]"};
